@@ -9,22 +9,22 @@ ROOT = os.path.dirname(os.path.dirname(os.path.abspath(__file__)))
 CHECKS = {
  "C04": ("M", "model_checking",
    "bounded exhaustive enumeration of token sequences, CFG-recogniser model vs Compile",
-   "Every token sequence up to the length bound over a one-spelling-per-kind alphabet (quick 4, thorough 6 tokens; 3 whitespace styles), every single-token edit of every generated sentence up to the size bound, and sequences over structured spellings are classified by an independent chart recogniser of the JMESPath ABNF and replayed against Compile (a token whose content is invalid - literal that is not JSON, bad escape, bare minus - makes the sequence ungrammatical); every string of up to 3 (thorough 4) symbols of a 69-symbol lexer-class byte alphabet is lexed by the reference lexer and judged the same way; what Compile rejects the one-shot Search must reject too; accepted sentences are also searched to show they are usable. Exhaustive inside the bound, so any accept/reject deviation expressible in that many tokens is found.",
+   "Every token sequence up to the length bound over a one-spelling-per-kind alphabet (quick 4, thorough 6 tokens; 3 whitespace styles), every single-token edit of every generated sentence up to the size bound, and sequences over structured spellings are classified by an independent chart recogniser of the JMESPath ABNF and replayed against Compile (a token whose content is invalid - literal that is not JSON, bad escape, bare minus - makes the sequence ungrammatical); every string of up to 3 (thorough 4) symbols of a 69-symbol lexer-class byte alphabet is lexed by the reference lexer and judged the same way; what Compile rejects the one-shot Search must reject too; accepted sentences are also searched to show they are usable. Exhaustive inside the bound, so any accept/reject deviation expressible in that many tokens is found. Plus closer/separator edits (delete, replace, insert) of every sentence up to structural weight 5 (thorough 6) and every numeral spelling in every numeric position.",
    "Trusted: the ABNF transcription in model/grammar.go (grounded on the 862 official compliance cases and cross-checked against the independent precedence parser P and the sentence generator on all sequences up to 5 kinds). Gaps G1-G4 give no verdict.",
    "DESIGN.md section 5 C04"),
  "C01": ("M", "model_checking",
    "bounded exhaustive (expression x document) enumeration, reference evaluator vs Search",
-   "All sentences of the core fragment up to the structural weight bound (quick 5, thorough 6) x all documents of V(d,2,A6,keys) (quick depth 1: 430 docs, thorough depth 2: 19k docs) are evaluated by the independent reference evaluator and replayed against the real compiled Search; results compared by deep JSON equality, error iff error. Every Execute case of the fragment meets every JSON type as current value.",
+   "All sentences of the core fragment up to the structural weight bound (quick 5, thorough 6) x all documents of V(d,2,A6,keys) (quick depth 1: 430 docs, thorough depth 2: 19k docs) are evaluated by the independent reference evaluator and replayed against the real compiled Search; results compared by deep JSON equality, error iff error. Every Execute case of the fragment meets every JSON type as current value. Plus pumped sentence families (one construct repeated k times, nested or in a row; k from a fixed size list and the integer literals of the current tree with their neighbours, up to 1100, thorough 5000).",
    "Trusted: model/eval.go (grounded on the official compliance corpus). Claim is bounded: no violation by any expression/document inside the stated bounds.",
    "DESIGN.md section 5 C01"),
  "C02": ("M", "model_checking",
    "bounded exhaustive (expression x document) enumeration with outcome sets over object-member orders",
-   "All sentences of the projection fragment containing a projection (every projection kind, chained/nested, RHS that map null to non-null, all terminators) up to the weight bound x ~1.2k-10k documents incl. heterogeneous / null-containing arrays and objects, plus every postfix chain (dot, index, two slice forms, [*], .*, [], filters, type(@), with | and || as terminators) up to weight 7 (thorough 8) and ~10^4 projections piped into a second projection; the real result must be a member of the set of outcomes the reference evaluator admits over all object-member orders.",
+   "All sentences of the projection fragment containing a projection (every projection kind, chained/nested, RHS that map null to non-null, all terminators) up to the weight bound x ~1.2k-10k documents incl. heterogeneous / null-containing arrays and objects, plus every postfix chain (dot, index, two slice forms, [*], .*, [], filters, type(@), with | and || as terminators) up to weight 7 (thorough 8) and ~10^4 projections piped into a second projection; the real result must be a member of the set of outcomes the reference evaluator admits over all object-member orders. Plus pumped projection families (k flattens / wildcards / filters / slices in a row, nested or as siblings of one multi-select; sizes as in C01).",
    "Trusted: model/eval.go. Bounded as reported in the evidence.",
    "DESIGN.md section 5 C02"),
  "C07": ("M", "model_checking",
    "exhaustive operand-pair and operator-nesting enumeration against a reference truth table",
-   "All pairs of 84 operand values (every type, emptiness, nesting) x 8 binary operators as fields and as literals, !x/!!x, all nestings of ||,&&,!,comparators up to 6 (thorough 7) tokens over all triples of 12 operand values, the same conditions inside filters, and short-circuit probes with an erroring unevaluated side; compared with the reference evaluator.",
+   "All pairs of 84 operand values (every type, emptiness, nesting) x 8 binary operators as fields and as literals, !x/!!x, all nestings of ||,&&,!,comparators up to 6 (thorough 7) tokens over all triples of 12 operand values, the same conditions inside filters, and short-circuit probes with an erroring unevaluated side; compared with the reference evaluator. Plus projection-valued filter conditions and operands that alias each other (two windows of one backing array, one container held twice; documents handed to the implementation uncopied).",
    "Trusted: model/eval.go truthiness / deep equality / numeric ordering.",
    "DESIGN.md section 5 C07"),
  "C08": ("M", "model_checking",
@@ -34,12 +34,12 @@ CHECKS = {
    "DESIGN.md section 5 C08"),
  "C09": ("M", "model_checking",
    "exhaustive well-typed argument-tuple enumeration per built-in against reference function definitions",
-   "For each of the 26 built-ins every well-typed argument tuple of a typed value universe (numbers, 12 strings incl. multi-byte, all arrays up to length 6 (thorough 7) over 4 numbers / 4 strings with duplicates and all orders, {k,t}-object arrays with tied keys, colliding objects, heterogeneous arrays), standalone and in 10 contexts, is evaluated by the reference definitions and replayed against Search; to_string judged by decode-back, to_number per gap G5 over all strings of <=3 symbols from a numeric alphabet.",
+   "For each of the 26 built-ins every well-typed argument tuple of a typed value universe (numbers, 12 strings incl. multi-byte, all arrays up to length 6 (thorough 7) over 4 numbers / 4 strings with duplicates and all orders, {k,t}-object arrays with tied keys, colliding objects, heterogeneous arrays), standalone and in 10 contexts, is evaluated by the reference definitions and replayed against Search; to_string judged by decode-back, to_number per gap G5 over all strings of <=3 symbols from a numeric alphabet. Plus pairs of different functions over one field in one expression, variadic calls of different widths, nested control characters for to_string and JSON keywords for to_number.",
    "Trusted: the function table in model/eval.go. Bounded value universe; unordered results compared through outcome sets.",
    "DESIGN.md section 5 C09"),
  "C10": ("M", "model_checking",
    "exhaustive function x arity x argument-type matrix enumeration against the reference signature table",
-   "28 names x arities 0..3 x all argument tuples over 13 argument kinds (11 JSON values + 2 expression references) as literals and through document fields, arity 4 over a 6-kind subset, and by-expression functions over all arrays of length 0..4 (thorough 5) of 10 element kinds: every call the reference signature table rejects must be an error (never a value or a panic), every accepted call must give the reference value.",
+   "28 names x arities 0..3 x all argument tuples over 13 argument kinds (11 JSON values + 2 expression references) as literals and through document fields, arity 4 over a 6-kind subset, and by-expression functions over all arrays of length 0..4 (thorough 5) of 10 element kinds: every call the reference signature table rejects must be an error (never a value or a panic), every accepted call must give the reference value. Plus by-functions nested in key expressions and long multi-byte ill-typed arguments (sizes also from the mined constants).",
    "Trusted: signature table in model/eval.go. Gap G11 (expression reference in a position typed any) gives no verdict.",
    "DESIGN.md section 5 C10"),
  "C11": ("M", "model_checking",
@@ -49,7 +49,7 @@ CHECKS = {
    "DESIGN.md section 5 C11"),
  "C15": ("M", "model_checking",
    "exhaustive pair / context enumeration with a differential oracle on the implementation (no reference values)",
-   "All pairs (A,B) of mixed-fragment sentences up to weight 3 x documents: Search('A | B', d) must equal Search(B, Search(A, d)) and err iff a step errs; all contexts up to weight 4 whose hole is root-evaluated x hole expressions x documents: Search(C[E], d) must equal Search(C[literal of Search(E,d)], d).",
+   "All pairs (A,B) of mixed-fragment sentences up to weight 3 x documents: Search('A | B', d) must equal Search(B, Search(A, d)) and err iff a step errs; all contexts up to weight 4 whose hole is root-evaluated x hole expressions x documents: Search(C[E], d) must equal Search(C[literal of Search(E,d)], d). Plus pumped stages on either side of the pipe and big-numeral transparency (a field and the literal spelling the same digits).",
    "The reference evaluator only classifies order-dependent cases (skipped, counted) and non-trivial ones. Bounded universes.",
    "DESIGN.md section 5 C15"),
  "C16": ("M", "model_checking",
@@ -64,7 +64,7 @@ CHECKS = {
    "DESIGN.md section 5 C03"),
  "C05": ("M", "model_checking",
    "exhaustive byte-string / pumped-string / hostile-sentence enumeration with recover() and a per-case watchdog",
-   "All strings of up to 3 (thorough 5) symbols over a 50-symbol alphabet with one member per lexer character class and class boundary (incl. invalid UTF-8), the pumping family u^k v w^k up to 64 KiB, grammar-generated sentences with hostile leaves (extreme integers, non-ASCII, invalid UTF-8), expression references in every operand position, and calls with 7..256 arguments x 30 documents: Compile and Search must return; a deterministic pass on the statement-instrumented build bounds the statement count of every pumped family (budget and growth rate).",
+   "All strings of up to 3 (thorough 5) symbols over a 50-symbol alphabet with one member per lexer character class and class boundary (incl. invalid UTF-8), the pumping family u^k v w^k up to 64 KiB, grammar-generated sentences with hostile leaves (extreme integers, non-ASCII, invalid UTF-8), expression references in every operand position, and calls with 7..256 arguments x 30 documents: Compile and Search must return; a deterministic pass on the statement-instrumented build bounds the statement count of every pumped family (budget and growth rate). The instrumented side pass also explores every sequence of map-iteration orders for ~30k (expression, document) pairs with object-member iteration (no execution may panic), and the plain pass runs every nesting of two built-ins over extreme-number and numeral-like string documents.",
    "Exhaustive only for the stated alphabet/length; panics attributed by innermost library frame; termination by a statement budget on the instrumented build plus a 120 s per-case watchdog on the code as shipped; a fatal runtime error of the driver is reported as a crash violation.",
    "DESIGN.md section 5 C05"),
  "C14": ("M", "model_checking",
@@ -84,12 +84,12 @@ CHECKS = {
    "DESIGN.md section 5 C06"),
  "C12": ("S", "model_checking",
    "controlled cooperative scheduler over the statement-instrumented real code: solo write-monitor runs + independence reduction, and depth-first exploration of interleavings under a preemption bound",
-   "Scenarios S1-S4 (same compiled expression with same/different documents, one-shot Search on a shared document, Compile racing with Search) for every scenario expression: each thread body is run alone with a deep snapshot of all shared state (compiled expression, every package-level variable, shared documents) at every statement; no shared write and no sync operation proves all interleavings equivalent for any number of goroutines (independence theorem), an unsynchronised shared write is a data race; in addition real interleavings of 2 (thorough up to 3) threads are explored depth-first at statement granularity with preemption bound 1 (thorough 2), each schedule checked against the solo results; failing schedules are replayed 3 times. Further scenarios: the first library calls of a fresh process inside monitored threads (lazy initialisation), a compiled expression with a past of failing and succeeding searches, struct-typed documents of two layouts, a 40-element document.",
+   "Scenarios S1-S4 (same compiled expression with same/different documents, one-shot Search on a shared document, Compile racing with Search) for every scenario expression: each thread body is run alone with a deep snapshot of all shared state (compiled expression, every package-level variable, shared documents) at every statement; no shared write and no sync operation proves all interleavings equivalent for any number of goroutines (independence theorem), an unsynchronised shared write is a data race; in addition real interleavings of 2 (thorough up to 3) threads are explored depth-first at statement granularity with preemption bound 1 (thorough 2), each schedule checked against the solo results; failing schedules are replayed 3 times. Further scenarios: the first library calls of a fresh process inside monitored threads (lazy initialisation), a compiled expression with a past of failing and succeeding searches, struct-typed documents of two layouts, a 40-element document. sync.Pool is replaced by a deterministic pool emptied before every execution, so pooled code is explored exhaustively.",
    "Statement-level sequential consistency. Free-running go -race companion run alongside (reported in evidence, not the deciding step). sync.Mutex/RWMutex/Once/WaitGroup are shimmed; channels are not modelled (none in the library).",
    "DESIGN.md sections 3.5, 3.6, 5 C12"),
  "C13": ("H", "model_checking",
    "explicit-state breadth-first search over call histories on real objects, state = deep snapshot digest, to a fixpoint",
-   "For every scenario expression: BFS over Search histories on one compiled object (8 documents incl. failing ones), state = digest of all private fields of the compiled expression plus every package-level variable, to closure (covers histories of every length), plus all histories up to length 2 (thorough 3) replayed call by call; every answer equals the fresh-Compile and the one-shot answer (map order harness-decided, exact equality). Parser: BFS over Parse histories of one Parser over 60 valid/invalid expressions to closure (477 states) plus all histories up to length 2 (thorough 3), each Parse equal to a fresh parser's on AST render and error type/message/offset, ASTs handed out earlier re-inspected after later parses, hundreds of rejected inputs followed by valid ones. Process-global state: every sequence of two (thorough three) one-shot Search / Compile calls over the alphabet, each compared with the same call made as the first call of a brand-new process (with a caller that scribbles over returned values); pumped histories of 1500 (thorough 5000) repetitions; caller updates of a document in place between two searches.",
+   "For every scenario expression: BFS over Search histories on one compiled object (8 documents incl. failing ones), state = digest of all private fields of the compiled expression plus every package-level variable, to closure (covers histories of every length), plus all histories up to length 2 (thorough 3) replayed call by call; every answer equals the fresh-Compile and the one-shot answer (map order harness-decided, exact equality). Parser: BFS over Parse histories of one Parser over 60 valid/invalid expressions to closure (477 states) plus all histories up to length 2 (thorough 3), each Parse equal to a fresh parser's on AST render and error type/message/offset, ASTs handed out earlier re-inspected after later parses, hundreds of rejected inputs followed by valid ones. Process-global state: every sequence of two (thorough three) one-shot Search / Compile calls over the alphabet, each compared with the same call made as the first call of a brand-new process (with a caller that scribbles over returned values); pumped histories of 1500 (thorough 5000) repetitions; caller updates of a document in place between two searches. Map-order exploration: for 75 hand-written order-dependent expressions and every projection-fragment sentence with an object wildcard up to weight 4 (thorough 5) x 14 documents, every sequence of map-iteration orders (deviation bound iterated 1,2,(3) per pair, unbounded for calls with few requests) must give an outcome the reference model admits. Histories of N distinct one-shot expressions (N up to 70000 from mined sizes) followed by the early, middle and late ones again.",
    "Successor states are reached by replaying the shortest history on a fresh object (real objects can not be cloned).",
    "DESIGN.md section 5 C13"),
  "C18": ("M", "model_checking",
